@@ -79,6 +79,51 @@ def literal_locals(d, fn):
     return out
 
 
+FLIP = {"<": ">", ">": "<", "<=": ">=", ">=": "<=", "==": "==", "!=": "!="}
+NEGOP = {"<": ">=", ">=": "<", ">": "<=", "<=": ">", "==": "!=", "!=": "=="}
+
+
+def uncast(t):
+    while isinstance(t, tuple) and t and t[0] == "cast":
+        t = t[3]
+    return t
+
+
+def norm_cmp(t, is_subject):
+    """a (possibly negated / operand-swapped) comparison -> (op, subject, other) with the subject on the left; None if t is not one"""
+    t = uncast(t)
+    neg = False
+    while t[0] == "un" and t[1] == "!":
+        neg = not neg
+        t = uncast(t[2])
+    if t[0] != "bin" or t[1] not in FLIP:
+        return None
+    op, a, b = t[1], uncast(t[2]), uncast(t[3])
+    if not is_subject(a) and is_subject(b):
+        op, a, b = FLIP[op], b, a
+    if not is_subject(a):
+        return None
+    if neg:
+        op = NEGOP[op]
+    return op, a, b
+
+
+def single_locals(fn):
+    """single-assignment locals with a side-effect-free initialiser: name -> sx of the initialiser"""
+    from .. import fstring as fs
+    out = {}
+    for k, v in fs.local_sx(fn).items():
+        if not any(x[0] == "call" and not (x[1][0] == "ref" and str(x[1][1]).split("::")[-1] in ("size_t",)) for x in ir.subterms(v) if isinstance(x, tuple)) or \
+                all(x[1][0] == "mem" and x[1][2] in ("size", "length") for x in ir.subterms(v) if isinstance(x, tuple) and x[0] == "call"):
+            out[k] = v
+    return out
+
+
+def sub(t, loc):
+    from .. import fstring as fs
+    return fs.subst_locals(t, loc)
+
+
 def loop_env(fn):
     env = {}
     for n in ir.walk_expr(fn):
@@ -96,6 +141,7 @@ def rule_index(rep, d, fns):
         env = loop_env(fn)
         lits = literal_locals(d, fn)
         env["__lits__"] = lits
+        env["__by_id__"] = d.by_id
         for node, base, idx in subscripts(fn):
             ext = extent_of(base)
             bs = ir.strip(base)
@@ -174,9 +220,19 @@ def rule_alpha(rep, d, dec, enc, helpers=()):
             if t[0] == "call" and t[1][0] == "mem" and t[1][2] == "fill" and len(t) == 3:
                 seen_fill.add(n.get("id"))
                 fills.append((n, t[2]))
+    if not fills:
+        # std::fill(T.begin(), T.end(), k) / std::fill_n(T.begin(), 256, k)
+        for n in ir.walk_expr(dec):
+            if n.get("kind") == "CallExpr" and n.get("id") not in seen_fill:
+                t = ir.sx(n)
+                nm = str(t[1][1]).split("::")[-1] if t[0] == "call" and t[1][0] == "ref" else ""
+                if nm == "fill" and len(t) == 5 and uncast(t[2])[0] == "call" and uncast(t[2])[1][0] == "mem" and uncast(t[2])[1][2] in ("begin", "data") \
+                        and uncast(t[3])[0] == "call" and uncast(t[3])[1][0] == "mem" and uncast(t[3])[1][2] == "end" and uncast(t[2])[1][1] == uncast(t[3])[1][1]:
+                    seen_fill.add(n.get("id"))
+                    fills.append((n, t[4]))
     sentinel = None
     if len(fills) == 1:
-        iv = trange.interval(ir.ekids(fills[0][0])[1])
+        iv = trange.interval(ir.ekids(fills[0][0])[-1])
         if iv and iv[0] == iv[1]:
             sentinel = iv[0]
     if sentinel is None:
@@ -184,6 +240,8 @@ def rule_alpha(rep, d, dec, enc, helpers=()):
         return None
     # the element type must represent the sentinel on every target: plain `char` is unsigned on ARM/PowerPC or with -funsigned-char
     obj = ir.ekids(ir.strip(ir.ekids(fills[0][0])[0]))
+    if fills[0][0].get("kind") == "CallExpr":
+        obj = ir.ekids(ir.strip(ir.ekids(ir.strip(ir.ekids(fills[0][0])[1]))[0]))
     elem = re.search(r"std::array<([^,]+),", ir.qtype(obj[0]) if obj else "")
     elem_t = elem.group(1).strip() if elem else "?"
     if 0 <= sentinel <= 63:
@@ -201,13 +259,30 @@ def rule_alpha(rep, d, dec, enc, helpers=()):
             continue
         r = trange.for_loop_var_range(n)
         assigns = [a for a in ir.walk_expr(n) if a.get("kind") == "BinaryOperator" and a.get("opcode") == "="]
+        loc = single_locals(dec)
+        litnames = {(d.by_id.get(vid) or {}).get("name") for vid in literal_locals(d, dec)}
+        loopvar = (d.by_id.get(r[0]) or {}).get("name") if r else None
+        rawinc = n.get("inner", [])[3] if len(n.get("inner", [])) > 3 and isinstance(n.get("inner", [])[3], dict) else None
+        stepped = {((ir.strip(ir.ekids(x)[0]).get("referencedDecl") or {}).get("name")) for x in (ir.walk_expr(rawinc) if rawinc else [])
+                   if x.get("kind") == "UnaryOperator" and x.get("opcode") == "++"} | \
+                  ({(ir.strip(ir.ekids(rawinc)[0]).get("referencedDecl") or {}).get("name")} if rawinc and rawinc.get("kind") == "UnaryOperator" else set())
+
+        def alpha_at(x):
+            """alphabet[i] in any spelling -> the position term i, else None"""
+            x = uncast(x)
+            if x[0] == "index" and (uncast(x[1])[0] == "str" or (uncast(x[1])[0] == "ref" and uncast(x[1])[1] in litnames)):
+                return uncast(x[2])
+            if x[0] == "un" and x[1] == "*" and uncast(x[2])[0] == "ref" and uncast(x[2])[1] in litnames and uncast(x[2])[1] in stepped and loopvar in stepped:
+                return ("ref", loopvar)        # a pointer that starts at the alphabet and advances in lockstep with the counter
+            return None
         for a in assigns:
             t = ir.sx(a)
-            lhs, rhs = t[2], t[3]
-            if lhs[0] == "index" and any(s[0] == "index" and s[1][0] == "str" for s in ir.subterms(lhs[2])):
+            lhs, rhs = sub(t[2], loc), sub(t[3], loc)
+            cands = [alpha_at(s_) for s_ in ir.subterms(lhs[2])] if lhs[0] == "index" else []
+            cands = [c_ for c_ in cands if c_ is not None]
+            if cands:
                 built = True
-                inner = [s for s in ir.subterms(lhs[2]) if s[0] == "index" and s[1][0] == "str"][0]
-                var = inner[2]
+                var = cands[0]
                 rv = rhs
                 while rv[0] == "cast":
                     rv = rv[3]
@@ -227,9 +302,19 @@ def rule_alpha(rep, d, dec, enc, helpers=()):
 def rule_stop(rep, d, dec, sentinel):
     rep.rule("C13.stop", "the decoder's loop leaves at the first character whose table entry is the sentinel, before that "
                          "character contributes to the output, and every later lookup uses the same index expression")
-    loops = [n for n in ir.walk_expr(dec) if n.get("kind") == "CXXForRangeStmt"]
+    loc = single_locals(dec)
+
+    def lookups(t):
+        return [x for x in ir.subterms(t) if isinstance(x, tuple) and x[0] == "index" and uncast(x[1])[0] != "str" and "lit" != uncast(x[1])[0]
+                and not (uncast(x[1])[0] == "ref" and uncast(x[1])[1] in ("input",))]
+    # the table: the std::array / int[] object that is subscripted in the loop
+    loops = [n for n in ir.walk_expr(dec) if n.get("kind") in ("CXXForRangeStmt", "ForStmt", "WhileStmt", "DoStmt")
+             and any("std::array" in ir.qtype(b_) or "int[" in ir.qtype(b_) or "int [" in ir.qtype(b_) for _, b_, _ in subscripts(n))
+             and any(x.get("kind") in ("BreakStmt", "ReturnStmt") for x in ir.walk_expr(n))]
+    if not loops:
+        loops = [n for n in ir.walk_expr(dec) if n.get("kind") == "CXXForRangeStmt"]
     if len(loops) != 1:
-        rep.inconclusive("C13.stop", dec["name"], "input loop", detail="expected one range-for over the input, found %d" % len(loops))
+        rep.inconclusive("C13.stop", dec["name"], "input loop", detail="expected one loop over the input that reads the table, found %d" % len(loops))
         return
     loop = loops[0]
     bodyn = [c for c in ir.kids(loop) if c.get("kind") == "CompoundStmt"]
@@ -237,46 +322,72 @@ def rule_stop(rep, d, dec, sentinel):
         rep.inconclusive("C13.stop", dec["name"], "input loop", detail="loop body is not a block")
         return
     stmts = ir.kids(bodyn[-1])
-    guard_index = None
-    for i, s in enumerate(stmts):
-        has_lookup = any(True for _ in subscripts(s))
-        if not has_lookup:
-            if any(x.get("kind") in ("BinaryOperator", "CompoundAssignOperator", "CXXMemberCallExpr") for x in ir.walk_expr(s)) and guard_index is None:
-                # an effect before the guard that does not read the table is fine only if it does not touch the accumulators
-                pass
-            continue
-        if s.get("kind") == "IfStmt" and guard_index is None:
-            ks = ir.ekids(s)
-            cond = ir.sx(ks[0])
+
+    def table_lookups(node):
+        out = []
+        for x in ir.walk_expr(node):
+            pass
+        t = sub(ir.sx(node), loc) if node.get("kind") not in ("IfStmt", "DeclStmt", "CompoundStmt") else None
+        return t
+    guard = None
+    for i, s_ in enumerate(stmts):
+        k = s_.get("kind")
+        if k == "DeclStmt":
+            # single-assignment locals are substituted into their uses; any other declaration that reads the table counts as a use
+            vs = [v for v in ir.kids(s_) if v.get("kind") == "VarDecl"]
+            if all(v.get("name") in loc for v in vs):
+                continue
+        if k == "IfStmt" and guard is None:
+            ks = ir.ekids(s_)
+            cond_t = sub(ir.sx(ks[0]), loc)
+            c = norm_cmp(cond_t, lambda x: x[0] == "index")
+            if c is None:
+                if not lookups(cond_t) and not any(lookups(sub(ir.sx(x), loc)) for x in ir.walk_expr(ks[1]) if x.get("kind") in ("BinaryOperator", "CompoundAssignOperator", "CXXMemberCallExpr")):
+                    continue
+                rep.violates("C13.stop", dec["name"], "guard", where=d.where(s_),
+                             detail="the first statement reading the table is not a test of the entry against the sentinel (condition `%s`)" % ir.show(cond_t)[:80])
+                return
+            op, subj, other = c
+            try:
+                oval = int(str(other[1])) if other[0] == "lit" else (-int(str(uncast(other[2])[1])) if other[0] == "un" and other[1] == "-" else None)
+            except (ValueError, TypeError):
+                oval = None
             then = ks[1]
             leaves = any(x.get("kind") in ("BreakStmt", "ReturnStmt") for x in ir.walk_expr(then))
-            ok_cond = cond[0] == "bin" and cond[1] == "==" and ((cond[2][0] == "index") != (cond[3][0] == "index"))
-            other = None
-            if ok_cond:
-                other_n = ir.ekids(ir.strip(ks[0]))[1] if cond[2][0] == "index" else ir.ekids(ir.strip(ks[0]))[0]
-                iv = trange.interval(other_n)
-                other = iv[0] if iv and iv[0] == iv[1] else None
-            if ok_cond and leaves and other == sentinel:
-                rep.holds("C13.stop", dec["name"], "guard", where=d.where(s), detail="if (T[c] == %d) break" % sentinel)
-                guard_index = (i, cond[2] if cond[2][0] == "index" else cond[3])
+            if op == "==" and leaves and oval == sentinel:
+                rep.holds("C13.stop", dec["name"], "guard", where=d.where(s_), detail="if (T[c] == %d) leave" % sentinel)
+                guard = subj
                 continue
-            rep.violates("C13.stop", dec["name"], "guard", where=d.where(s),
+            if op == "<" and leaves and oval == 0 and sentinel is not None and sentinel < 0:
+                rep.holds("C13.stop", dec["name"], "guard", where=d.where(s_), detail="if (T[c] < 0) leave; sentinel %d" % sentinel)
+                guard = subj
+                continue
+            rep.violates("C13.stop", dec["name"], "guard", where=d.where(s_),
                          detail="the first statement reading the table is not `if (T[c] == <sentinel %s>) break/return` (condition `%s`, leaves loop: %s)"
-                                % (sentinel, ir.show(cond), leaves))
+                                % (sentinel, ir.show(cond_t)[:80], leaves))
             return
-        if guard_index is None:
-            rep.violates("C13.stop", dec["name"], "guard", where=d.where(s),
-                         detail="the table entry is used (`%s`) before any test against the sentinel" % d.text(s)[:60])
+        # any other statement: the table entries it reads
+        reads = []
+        for x in [s_] + list(ir.walk_expr(s_)):
+            if x.get("kind") in ("BinaryOperator", "CompoundAssignOperator", "CXXMemberCallExpr", "CallExpr", "CXXOperatorCallExpr", "DeclStmt", "VarDecl"):
+                try:
+                    reads += lookups(sub(ir.sx(x), loc))
+                except Exception:
+                    pass
+        if not reads:
+            continue
+        if guard is None:
+            rep.violates("C13.stop", dec["name"], "guard", where=d.where(s_),
+                         detail="the table entry is used (`%s`) before any test against the sentinel" % d.text(s_)[:60])
             return
-        # later lookups: same index expression
-        for node, base, idx in subscripts(s):
-            t = ir.sx(node)
-            if t != guard_index[1]:
-                rep.violates("C13.stop", dec["name"], "later lookup", where=d.where(node),
-                             detail="lookup `%s` differs from the guarded lookup `%s`" % (ir.show(t), ir.show(guard_index[1])))
+        for t in reads:
+            if t != guard:
+                rep.violates("C13.stop", dec["name"], "later lookup", where=d.where(s_),
+                             detail="lookup `%s` differs from the guarded lookup `%s`" % (ir.show(t), ir.show(guard)))
             else:
-                rep.holds("C13.stop", dec["name"], "later lookup", where=d.where(node))
-    if guard_index is None:
+                rep.holds("C13.stop", dec["name"], "later lookup", where=d.where(s_))
+            break
+    if guard is None:
         rep.violates("C13.stop", dec["name"], "guard", where=d.where(loop), detail="no sentinel test in the decoding loop")
 
 
@@ -293,12 +404,15 @@ def consts(fn):
                 counters[n.get("name")] = r[0]
                 out["init"].add(r[0])
     def lit(t):
+        t = uncast(t)
         return int(t[1]) if t[0] == "lit" and str(t[1]).lstrip("-").isdigit() else None
+    loc = single_locals(fn)
+    skip = set()
     for n in ir.walk_expr(fn):
         k = n.get("kind")
         if k == "BinaryOperator" and n.get("opcode") == "=":
             t = ir.sx(n)
-            x, rhs = t[2], t[3]
+            x, rhs = uncast(t[2]), sub(t[3], loc)
             keep = None
             if rhs[0] == "bin" and rhs[1] == "&" and lit(rhs[3]) is not None:      # val = ((val << a) + e) & keepmask
                 keep, rhs = lit(rhs[3]), rhs[2]
@@ -317,19 +431,24 @@ def consts(fn):
             if t[2][0] == "ref" and t[2][1] in counters and lit(t[3]) is not None:
                 out["count_add" if n.get("opcode") == "+=" else "count_sub" if n.get("opcode") == "-=" else "init"].add(lit(t[3]))
         if k == "BinaryOperator" and n.get("opcode") == "&":
-            t = ir.sx(n)
+            t = sub(ir.sx(n), loc)
             if t[2][0] == "bin" and t[2][1] == ">>" and lit(t[3]) is not None:
                 out["mask"].add(lit(t[3]))
                 sh = t[2]
                 # tail form ((val << a) >> (valb + b))
                 if sh[2][0] == "bin" and sh[2][1] == "<<" and sh[3][0] == "bin" and sh[3][1] == "+":
                     out["tail"].add((lit(sh[2][3]), lit(sh[3][3])))
-        if k == "BinaryOperator" and n.get("opcode") in (">=", ">", "<", "<=", "==", "!="):
-            t = ir.sx(n)
-            if t[2][0] == "ref" and t[2][1] in counters:
-                neg = t[3]
+        is_cmp = k == "BinaryOperator" and n.get("opcode") in (">=", ">", "<", "<=", "==", "!=")
+        is_not = k == "UnaryOperator" and n.get("opcode") == "!" and ir.strip(ir.ekids(n)[0]).get("kind") == "BinaryOperator" and \
+            ir.strip(ir.ekids(n)[0]).get("opcode") in (">=", ">", "<", "<=", "==", "!=")
+        if is_not:
+            skip.add(id(ir.strip(ir.ekids(n)[0])))
+        if (is_cmp and id(n) not in skip) or is_not:
+            c = norm_cmp(ir.sx(n), lambda x: x[0] == "ref" and x[1] in counters)     # operand order and negation normalised
+            if c is not None:
+                op, _, neg = c
+                neg = uncast(neg)
                 v = lit(neg) if neg[0] == "lit" else (-lit(neg[2]) if neg[0] == "un" and neg[1] == "-" and lit(neg[2]) is not None else None)
-                op = n.get("opcode")
                 if op == ">" and v is not None:
                     op, v = ">=", v + 1          # integers: x > k  <=>  x >= k+1
                 out["emit_cmp"].add((op, v))
